@@ -19,7 +19,7 @@ cd "$SCR/verif" && ./check build >/dev/null 2>&1
 for D in "${DIRS[@]}"; do
   D=$(realpath "$D"); ID=$(python3 -c "import json,sys; print(json.load(open('$D/meta.json'))['property'])")
   if ! git -C "$SCR/repo" apply "$D/patch.diff" 2>/dev/null; then
-    if ! git -C "$SCR/repo" apply --3way "$D/patch.diff" >/dev/null 2>&1; then printf "%s\t%s\tno-apply\t-\t-\n" "$(basename $D)" "$ID" >> "$OUT"; git -C "$SCR/repo" checkout -q -- .; git -C "$SCR/repo" reset -q; continue; fi
+    if ! git -C "$SCR/repo" apply --3way "$D/patch.diff" >/dev/null 2>&1; then printf "%s\t%s\tno-apply\t-\t-\n" "$(basename $D)" "$ID" >> "$OUT"; git -C "$SCR/repo" reset -q --hard; continue; fi
     git -C "$SCR/repo" reset -q
   fi
   T0=$(date +%s)
@@ -27,7 +27,7 @@ for D in "${DIRS[@]}"; do
   T1=$(date +%s)
   K=$(echo "$O" | grep -E "^---- violation" | head -1 | sed 's/^---- violation (\(.*\)) ----.*/\1/' | cut -c1-80)
   printf "%s\t%s\trc=%d\t%ds\t%s\n" "$(basename $D)" "$ID" "$RC" "$((T1-T0))" "$K" >> "$OUT"
-  git -C "$SCR/repo" checkout -q -- .
+  git -C "$SCR/repo" reset -q --hard
 done
 git -C /repo worktree remove --force "$SCR/repo"; rm -rf "$SCR"
 echo "matrix written to $OUT"
